@@ -12,6 +12,6 @@ from vlib import core
 core.coq_prepare()
 PY
 (cd coq && timeout 3000 make -j16 > ../.cache/coq-build.log 2>&1) || { tail -40 .cache/coq-build.log; exit 1; }
-[ -f harness/Cargo.lock ] || cp /repo/Cargo.lock harness/Cargo.lock
+python3 -c "import sys; sys.path.insert(0,'.'); from vlib import core; core.render_harness_manifest()"
 (cd harness && RUSTFLAGS="--cfg jrsonnet_verif" CARGO_TARGET_DIR="$PWD/../.cache/target" cargo build --offline --quiet)
 echo setup done
